@@ -226,6 +226,27 @@ Theorem C04_forms_agree_3 :
 Proof. exact @forms_agree_3. Qed.
 Print Assumptions C04_forms_agree_3.
 
+(* the one- and three-argument families without fuel in the statement: every form of forms1 / forms3
+   (all the forms of C04_forms_agree_1 / _3, the seven underscore layouts included) yields r with some
+   fuel exactly when the plain vector call does *)
+Theorem C04_forms_converge_1 :
+  forall (B C D : Type) (brun : B -> list (val B C D) -> outcome (val B C D))
+         (crun : C -> list (val B C D) -> outcome (val B C D))
+         (diter : D -> outcome (list (val B C D))) f a r e, In e (forms1 f a) ->
+  (converges (fun n => eval brun crun diter n e) r <->
+   converges (fun n => run brun crun diter n f [a]) r).
+Proof. exact @forms_converge_1. Qed.
+Print Assumptions C04_forms_converge_1.
+
+Theorem C04_forms_converge_3 :
+  forall (B C D : Type) (brun : B -> list (val B C D) -> outcome (val B C D))
+         (crun : C -> list (val B C D) -> outcome (val B C D))
+         (diter : D -> outcome (list (val B C D))) f a b c r e, In e (forms3 f a b c) ->
+  (converges (fun n => eval brun crun diter n e) r <->
+   converges (fun n => run brun crun diter n f [a; b; c]) r).
+Proof. exact @forms_converge_3. Qed.
+Print Assumptions C04_forms_converge_3.
+
 (* any number of arguments: call/bang, splat, apply, of, splatted hole; and a call section with
    holes in any (non-empty) set of positions applied to the values of those positions *)
 Theorem C04_forms_agree_n :
